@@ -341,6 +341,8 @@ class Program:
                     return r
             return None
         r = self.resolve_symbol(m, head, _depth)
+        if r is None and fn is not None and len(parts) >= 2:
+            r = self._local_module_alias(m, fn, head)
         if r is None:
             if len(parts) == 1 and head in _BUILTINS:
                 return ("ext", head)
@@ -370,6 +372,34 @@ class Program:
             else:
                 return None
         return r
+
+    def _local_module_alias(self, m: Module, fn: Func, name: str) -> Optional[Tuple[str, str]]:
+        """`core = _core_module()` where the callee returns an imported module."""
+        memo = self.__dict__.setdefault("_lma", {})
+        k = (fn.qual, name)
+        if k not in memo:
+            memo[k] = self._local_module_alias_uncached(m, fn, name)
+        return memo[k]
+
+    def _local_module_alias_uncached(self, m: Module, fn: Func, name: str) -> Optional[Tuple[str, str]]:
+        f: Optional[Func] = fn
+        while f is not None:
+            for x in walk_no_defs(f.node):
+                if isinstance(x, ast.Assign) and len(x.targets) == 1 and isinstance(x.targets[0], ast.Name) \
+                        and x.targets[0].id == name and isinstance(x.value, ast.Call):
+                    d = dotted(x.value.func)
+                    if not d:
+                        continue
+                    r = self.resolve_dotted(m, d, None)
+                    if r and r[0] == "func":
+                        callee = self.funcs[r[1]]
+                        for y in walk_no_defs(callee.node):
+                            if isinstance(y, ast.Return) and isinstance(y.value, ast.Name):
+                                rr = self.resolve_symbol(callee.module, y.value.id)
+                                if rr and rr[0] == "module":
+                                    return rr
+            f = f.parent
+        return None
 
     def _method(self, m: Module, cls_local: str, meth: str, _seen=None) -> Optional[Tuple[str, str]]:
         key = f"{cls_local}.{meth}"
